@@ -173,7 +173,11 @@ namespace via
         /// @retval ssl_shutdown - an SSL shutdown should be performed
         /// @return true if the socket is disconnected, false otherwise.
         bool is_disconnect(ASIO_ERROR_CODE const& error) noexcept
-        { return ASIO::error::get_ssl_category() == error.category(); }
+        {
+          // the peer closed the socket without a close_notify
+          return (ASIO::error::get_ssl_category() == error.category()) ||
+                 (ASIO::ssl::error::stream_truncated == error);
+        }
 
         /// @fn is_shutdown
         /// This function determines whether the caller should perform an SSL
@@ -181,7 +185,7 @@ namespace via
         // @param error the error_code
         bool is_shutdown(ASIO_ERROR_CODE const& error) noexcept
         {
-          return
+          return (ASIO::ssl::error::stream_truncated != error) &&
 // SSL_R_SHORT_READ is no longer defined in openssl 1.1.x
 #ifdef SSL_R_SHORT_READ
                (SSL_R_SHORT_READ != ERR_GET_REASON(error.value())) &&
